@@ -39,12 +39,22 @@ CLAIM = dict(
     "dim / mass_coeff / diffusion_coeff. A call returns the record of everything it reads; DarsiaModel.SolverArith evaluates the "
     "ARITHMETIC of Jacobi (diagonal, sweeps with ghost neighbours), of the MG V-cycle (darsia.laplace, restriction, prolongation, edge "
     "padding, heterogeneous coefficients) and of H1_regularization over Q from that record, so the theorems transfer to results "
-    "(`stateless_results`, `self_contained_results`, `h1_result_stateless`). Tie: equal/unequal predictions on all generated sequences, "
+    "(`stateless_results`, `self_contained_results`, `h1_result_stateless`). READING of 'coefficients set for it': the public parameters "
+    "(dim, mass_coeff, diffusion_coeff) of a USER's solver object are visible state; whoever calls update_params on it - the user, or a "
+    "regulariser the user handed it to - sets them for later bare solver calls (`stateless` is relative to that parameter-setting part of "
+    "the history, and the oracle's fresh-process reference replays exactly that part); regularisers themselves overwrite all three and are "
+    "independent of everything. Near-definitional parts (with the diagonal recomputed per call, Jacobi/Anderson-from-0/first-solve-sets-up are "
+    "stateless by construction): the content is in MG coefficient restoration, the default instances, the parameter-forgetting normal form "
+    "and in the TIE: every call of every sequence is observed through instrumented live objects (Jacobi._diag/__call__, MG.operator, "
+    "update_params, Anderson reset/columns, linear_solve set-up vs re-use incl. the initial Darcy and final pressure solves) and its event "
+    "trace is compared token by token with the model's record; plus equal/unequal predictions on all generated sequences, "
     "and the model's rational results of every Jacobi / MG / H1 call against the implementation's floats (exact where all diagonals are "
     "powers of two, within 1e-12 otherwise; split-Bregman, Anderson and distance arithmetic are NOT modelled - records only). The deciding "
     "observation is bit-for-bit equality with fresh processes over all sequences of the tier.",
     note="Arithmetic of numpy/scipy/numba/pyamg is outside the model; determinism of those libraries across processes is assumed "
-    "(and observed: zero mismatches on the fixed tree). tvd's skimage methods are covered by the oracle only.",
+    "(and observed: zero mismatches on the fixed tree). tvd's skimage methods are covered by the oracle only. All solver objects use tol=None "
+    "(the tolerance branches of Jacobi and MG are not exercised); reduced matrices, amg_residual_history and the distance object's own Anderson "
+    "acceleration are not in the model (oracle only).",
     technique="Lean 4 proof (cache-forgetting normal form commutes with every operation; induction over histories) + "
     "differential correspondence + fresh-process oracle",
 )
@@ -204,19 +214,136 @@ def fresh_result(ops):
     return digest(r)
 
 
+# ---------------------------------------------------------------------------
+# instrumentation of the live objects: the read-set / event sequence the model predicts is OBSERVED on the implementation
+
+_TRACE = {"events": [], "installed": False, "depth": 0, "fp": None}
+
+
+def _coef_fingerprints():
+    """coefficient arrays and their restrictions (MG.restriction with dim = 2), by content"""
+    if _TRACE["fp"] is None:
+        fp = {}
+        for k in range(3):
+            a = coef_array(k)
+            for n in range(4):
+                fp[(a.shape, a.tobytes())] = f"a{k}R{n}"
+                if min(a.shape) < 2:
+                    break
+                for ax in range(2):
+                    a = (np.take(a, np.arange(0, a.shape[ax] - 1, 2), axis=ax) + np.take(a, np.arange(1, a.shape[ax], 2), axis=ax)) / 2
+        _TRACE["fp"] = fp
+    return _TRACE["fp"]
+
+
+def _ctok(c):
+    if c is None:
+        return "None"
+    if isinstance(c, np.ndarray):
+        return _coef_fingerprints().get((c.shape, np.ascontiguousarray(c).tobytes()), "a?")
+    return fr(float(c))
+
+
+def _otok(c):
+    return "-" if c is None else (str(c) if isinstance(c, (int, np.integer)) and not isinstance(c, bool) else _ctok(c))
+
+
+def install_tracer(d):
+    """wrap (once per process) the methods through which hidden state could be read or written; behaviour is unchanged"""
+    if _TRACE["installed"]:
+        return
+    _TRACE["installed"] = True
+    ev = _TRACE["events"]
+    import darsia.measure.wasserstein as W
+
+    J, MGc, S, AA, VW = d.Jacobi, d.MG, d.Solver, d.AndersonAcceleration, W.VariationalWassersteinDistance
+    o_diag, o_jcall, o_op, o_supd, o_mupd, o_areset, o_acall, o_ls = J._diag, J.__call__, MGc.operator, S.update_params, MGc.update_params, AA.reset, AA.__call__, VW.linear_solve
+
+    def diag(self, h=1):
+        ev.append(("D", f"{self.dim},{_ctok(self.mass_coeff)},{_ctok(self.diffusion_coeff)},{fr(float(h))}"))
+        return o_diag(self, h)
+
+    def jcall(self, x0, rhs, h=1.0):
+        n0 = len(ev)
+        r = o_jcall(self, x0, rhs, h)
+        ds = [e for e in ev[n0:] if e[0] == "D"]
+        del ev[n0:]
+        ev.append(("T", f"J({self.maxiter};{ds[0][1] if len(ds) == 1 else 'cached' if not ds else 'diag-computed-%d-times' % len(ds)})"))
+        return r
+
+    def operator(self, x, h):
+        ev.append(("T", f"O({self.dim},{_ctok(self.mass_coeff)},{_ctok(self.diffusion_coeff)},{fr(float(h))})"))
+        return o_op(self, x, h)
+
+    def upd(orig):
+        def f(self, dim=None, mass_coeff=None, diffusion_coeff=None):
+            if _TRACE["depth"] == 0:
+                ev.append(("T", f"U({_otok(dim)},{_otok(mass_coeff)},{_otok(diffusion_coeff)})"))
+            _TRACE["depth"] += 1
+            try:
+                return orig(self, dim, mass_coeff, diffusion_coeff)
+            finally:
+                _TRACE["depth"] -= 1
+        return f
+
+    def areset(self):
+        ev.append(("R",))
+        return o_areset(self)
+
+    def acall(self, gk, fk, iteration):
+        n0 = len(ev)
+        r = o_acall(self, gk, fk, iteration)
+        reset = any(e[0] == "R" for e in ev[n0:])
+        del ev[n0:]
+        ev.append(("A", f"A({iteration};{int(reset)};{min(self._inner_iteration, self._depth)})"))
+        return r
+
+    def setup_wrap(orig):
+        def f(self, *a, **k):
+            ev.append(("S",))
+            return orig(self, *a, **k)
+        return f
+
+    def ls(self, *a, **k):
+        n0 = len(ev)
+        r = o_ls(self, *a, **k)
+        setup = any(e[0] == "S" for e in ev[n0:])
+        del ev[n0:]
+        ev.append(("L", "L(S)" if setup else "L(R)"))
+        return r
+
+    J._diag, J.__call__, MGc.operator, AA.reset, AA.__call__, VW.linear_solve = diag, jcall, operator, areset, acall, ls
+    S.update_params, MGc.update_params = upd(o_supd), upd(o_mupd)
+    for n in dir(VW):
+        if n.startswith("setup_") and n.endswith("_solver"):
+            setattr(VW, n, setup_wrap(getattr(VW, n)))
+
+
+def take_trace(op):
+    ev = _TRACE["events"]
+    if op["op"] == "di":
+        toks = [e[1] for e in ev if e[0] == "L"]  # the object's own Anderson acceleration is not part of the model
+    else:
+        toks = [e[1] for e in ev if e[0] in ("T", "A", "L")]
+    del ev[:]
+    return " ".join(toks)
+
+
 def run_chunk(seqs):
     """executed inside a fresh process: a chunk of sequences one after the other (one set of objects per sequence, the
     library's default solver instances shared by the whole chunk); digests of every call"""
     import darsia as d
 
+    install_tracer(d)
     out = []
     for seq in seqs:
         objs = Objs(d, with_ws=needs_ws(seq))
+        del _TRACE["events"][:]
         row = []
         for op in seq:
             r = execute(d, objs, op)
             vals = np.asarray(r, dtype=float).ravel().tolist() if op["op"] in ("jc", "mc", "h1") and isinstance(r, np.ndarray) else None
-            row.append((digest(r), vals))
+            row.append((digest(r), vals, take_trace(op)))
         out.append(row)
     return out
 
@@ -547,11 +674,13 @@ def _run(ctx, d, zyg):
     chunk_res = zyg.recv()
     results = [None] * len(seqs)
     values = [None] * len(seqs)
+    traces = [None] * len(seqs)
     before = {}  # sequence index -> indices of the sequences run earlier in the same process
     for c in range(nchunk):
         for pos, (i, r) in enumerate(zip(order[c::nchunk], chunk_res[c])):
             results[i] = [x[0] for x in r]
             values[i] = [x[1] for x in r]
+            traces[i] = [x[2] for x in r]
             before[i] = order[c::nchunk][:pos]
     for seq in seqs:
         ctx.count(("seq", json.dumps(seq, sort_keys=True)), nontrivial=len(seq) > 1)
@@ -599,6 +728,16 @@ def _run(ctx, d, zyg):
             n_sub_bad += 1
             ref[k] = v  # the real interpreter is the authority
     ctx.cov["fresh_interpreter_subprocesses"] = {"cases": len(sample), "differ_from_forked_fresh_process": n_sub_bad}
+
+    # ---- guard: an operation of the alphabet that raises when issued FIRST in a fresh process tests nothing
+    # (in-sequence and reference would both be the same exception) - report it instead of counting it as passing ----
+    for seq in seqs:
+        if len(seq) == 1 and seq[0]["op"] not in ("ju", "mu"):
+            v = ref.get(json.dumps(seq, sort_keys=True), "")
+            if v.startswith("!") and not seq[0].get("expect_raise"):
+                ctx.fail(signature(seq[0], "call").replace(":depends-on-earlier-call", "") + f":raises-in-a-fresh-process({v[1:]})",
+                         f"the operation raises {v[1:]} when issued first in a fresh process: {json.dumps(seq[0])}",
+                         {"sequence": seq, "call": 0, "in_sequence": results[seqs.index(seq)][0], "fresh_process": "a result (no exception)", "reference_ops": seq})
 
     # ---- oracle: every call of every sequence against its fresh-process reference ----
     n_cmp = 0
@@ -648,23 +787,38 @@ def _run(ctx, d, zyg):
     # ---- correspondence with the model: eq/ne predictions and Jacobi records ----
     lines, meta = [], []
     metavals = []
+    metatraces = []
     for si2, (seq, flags, res) in enumerate(zip(seqs, impl_eq, results)):
         if any(in_model(o) for o in seq) and (len(seq) <= 2 or si2 % ctx.pick(1, 3) == 0):
             lines.append(model_line(seq))
             meta.append((seq, [f for o, f in zip(seq, flags) if in_model(o)], [r for o, r in zip(seq, res) if in_model(o)]))
             metavals.append([v for o, v in zip(seq, values[si2]) if in_model(o)])
+            metatraces.append([t for o, t in zip(seq, traces[si2]) if in_model(o)])
     got = model_parallel(ctx, lines)
     ndiff = 0
     first = None
     njac = 0
     nnum = {"exact": 0, "within_1e-12": 0, "model_not_evaluated": 0}
     worst = 0.0
-    for (seq, flags, res), g, vals in zip(meta, got, metavals):
+    ntrace = 0
+    trace_bad = None
+    for (seq, flags, res), g, vals, trs in zip(meta, got, metavals, metatraces):
         parts = g.split(" ; ")
-        nums = [p.split(" | ")[1] if " | " in p else None for p in parts]
-        parts = [p.split(" | ")[0] for p in parts]
+        fields = [p.split(" | ") + ["", ""] for p in parts]
+        nums = [None if f[1].strip() in ("-", "") else f[1] for f in fields]
+        mtraces = [f[2].strip() for f in fields]
+        parts = [f[0] for f in fields]
         mflags = [(p.split() or ["?"])[0] for p in parts]
         ok = mflags == flags
+        # read-sets / events: what the instrumented implementation did, token by token, against the model's record
+        for op, mt, it, r in zip([o for o in seq if in_model(o)], mtraces, trs, res):
+            if r.startswith("!"):
+                continue  # a raising call leaves a partial trace (exception classes are compared by the oracle)
+            ntrace += 1
+            if mt != it:
+                ok = False
+                if trace_bad is None:
+                    trace_bad = {"op": op, "model_trace": mt[:600], "observed_trace": it[:600]}
         # arithmetic: the model's rational result of Jacobi / MG / H1 calls against the implementation's floats
         for op, num, v in zip([o for o in seq if in_model(o)], nums, vals):
             if v is None or num is None:
@@ -706,11 +860,13 @@ def _run(ctx, d, zyg):
             if first is None or len(seq) < len(first[0]):
                 first = (seq, flags, g)
     ctx.cov.setdefault("correspondence", {})["stateful-sequences"] = {"cases": len(lines), "disagreements": ndiff, "jacobi_records_recomputed": njac,
-                                                                       "arithmetic_results_compared": nnum, "max_relative_float_error": worst}
+                                                                       "arithmetic_results_compared": nnum, "max_relative_float_error": worst,
+                                                                       "event_traces_compared": ntrace}
     if lines:
         ctx.sample({"corr": "stateful-sequences", "request": lines[-1][:300], "model": got[-1][:200], "impl": " ".join(meta[-1][1])})
     if ndiff:
-        ctx.mark("CORR-BROKEN", {"correspondence": "stateful-sequences", "sequence": first[0], "impl_equal_to_fresh": first[1], "model": first[2], "n_diffs": ndiff})
+        ctx.mark("CORR-BROKEN", {"correspondence": "stateful-sequences", "sequence": first[0], "impl_equal_to_fresh": first[1], "model": first[2][:1500], "n_diffs": ndiff,
+                                 "first_trace_difference": trace_bad})
         ctx.log(f"correspondence stateful-sequences: {ndiff} disagreements, e.g. {json.dumps(first[0])[:300]} impl={first[1]} model={first[2][:200]}")
 
     ctx.cov["rule"] = ("sequences: quick = all of length <= 2 over the 34-operation alphabet + 1500 sampled triples + all of length <= 3 inside each group; thorough = all of "
